@@ -766,22 +766,45 @@ class AbstractCompress(object):
         st.setdefault('compressors', []).append(self)
 
     def compress(self, data):
+        """deflate buffers: the input enters the history NOW (seq advances), the bytes come out with the next flush() - of THIS
+        object (real zlib returns b'' or a few bytes from compress() for inputs below its internal buffer size)"""
         it = items_of(data)
-        n = len(it)
         World.cur.notes['zlib']['compress_calls'].append((self.gen, self.seq, list(it)))
+        if self.pending is None:
+            self.pending = (self.seq, list(it))
+        else:
+            self.pending = (self.pending[0], self.pending[1] + list(it))
+        self.seq += 1
+        _sched_point('zlib-compress-return')
+        return b''
+
+    def flush(self, mode=None):
+        if self.pending is None:
+            # nothing buffered: an empty stored block
+            return bytes(ZTAIL)
+        seq, it = self.pending
+        self.pending = None
+        n = len(it)
         wb = self.wbits
         if isinstance(wb, SymInt):
             wb = SymInt(wb.at(8), 8) if wb.w <= 8 else SymInt(z3.Extract(7, 0, wb.e), 8)
         if n >= 2 and symdata._concrete(it) and len(set(it)) == 1:
             # a run: "compressible" payload, the output is shorter than the input (RLE form)
-            out = [ZMAGIC, wb, self.gen & 0xFF, self.seq & 0xFF, (n >> 8) | 0x80, n & 0xFF, it[0]]
+            out = [ZMAGIC, wb, self.gen & 0xFF, seq & 0xFF, (n >> 8) | 0x80, n & 0xFF, it[0]]
         else:
-            out = [ZMAGIC, wb, self.gen & 0xFF, self.seq & 0xFF, n >> 8, n & 0xFF] + it
-        self.seq += 1
-        return mk_bytes(out)
+            out = [ZMAGIC, wb, self.gen & 0xFF, seq & 0xFF, n >> 8, n & 0xFF] + it
+        return mk_bytes(out + ZTAIL)
 
-    def flush(self, mode=None):
-        return bytes(ZTAIL)
+
+def _sched_point(tag):
+    """a call into zlib is a place where another thread can run (the C code releases the GIL): a preemption point for the
+    deterministic scheduler of the concurrency checks, when one is active"""
+    w = World.cur
+    sc = getattr(w, 'sched', None) if w is not None else None
+    if sc is not None:
+        me = getattr(_threading.current_thread(), 'sched_name', None)
+        if me is not None:
+            sc.point(me, tag)
 
 
 class AbstractDecompress(object):
@@ -801,6 +824,9 @@ class AbstractDecompress(object):
         out = []
         while True:
             b = self.buf
+            if len(b) >= 4 and symdata._concrete(b[:4]) and list(b[:4]) == ZTAIL:
+                del b[:4]              # an empty stored block (a flush with nothing buffered): no output
+                continue
             if len(b) < 6:
                 break
             if not symdata.tb(symdata.eq_items([b[0]], [ZMAGIC])):
@@ -881,6 +907,24 @@ def install():
     logging.disable(logging.CRITICAL)
 
 
+class _RealCompress(object):
+    """the real zlib compressor with the scheduler's preemption point on return from compress() (as in the abstract codec)"""
+
+    def __init__(self, obj):
+        self._obj = obj
+
+    def compress(self, data):
+        out = self._obj.compress(data)
+        _sched_point('zlib-compress-return')
+        return out
+
+    def flush(self, *a):
+        return self._obj.flush(*a)
+
+    def __getattr__(self, name):
+        return getattr(self._obj, name)
+
+
 class RecordingZlibModule(object):
     """replay mode: the REAL zlib, with the window-bits arguments of every (de)compressobj recorded so that the
     reference peer can check the API use (the window a deflater was created with is not observable otherwise)"""
@@ -896,7 +940,7 @@ class RecordingZlibModule(object):
         if w is not None:
             w.notes.setdefault('zlib_real', dict(compress_wbits=[], decompress_wbits=[]))['compress_wbits'].append(
                 a[2] if len(a) > 2 else k.get('wbits', 15))
-        return _zlib.compressobj(*a, **k)
+        return _RealCompress(_zlib.compressobj(*a, **k))
 
     @staticmethod
     def decompressobj(*a, **k):
